@@ -6,8 +6,11 @@ otherwise under `not_applicable`.
 """
 import json
 import os
+import sys
 
 HERE = os.path.dirname(os.path.dirname(os.path.abspath(__file__)))
+sys.path.insert(0, HERE)
+from mstatic.rules import args, effects  # noqa: E402
 
 # id -> (decided (what the check establishes), not decided, technique)
 P = {
@@ -221,6 +224,25 @@ def main():
         pid = p['id']
         mod = os.path.join(HERE, 'mstatic', 'rules', pid.lower() + '.py')
         decided, undecided, technique = P[pid]
+        n_re = len([t for t in effects.TABLE if pid in t[0]])
+        n_ra = len([t for t in args.TABLE if pid in t[0]])
+        if n_re:
+            technique += (' + exact enabling conditions of %d required '
+                          'effects (guard-atom whitelist, rules/effects.py)'
+                          % n_re)
+            decided += ('; the %d effects this property depends on '
+                        '(wake-ups, hand-offs, continuations, recursions, '
+                        're-arms) are not conditioned on any non-state fact '
+                        'beyond their listed enabling facts, and are '
+                        'reached for every state the property needs '
+                        '(coverage sets of the state-domain evaluator)'
+                        % n_re)
+        if n_ra:
+            technique += (' + explicit-argument table (%d call sites, '
+                          'rules/args.py)' % n_ra)
+            decided += ('; %d optional arguments whose default would break '
+                        'the property are still passed at their call sites'
+                        % n_ra)
         if os.path.exists(mod):
             checks.append({
                 'property_id': pid,
